@@ -1,0 +1,97 @@
+//! Verification-only facade (compiled only with `--cfg libp2p_verif`).
+//!
+//! Thin constructors and plain-data views for the simulation harness in /verif. No logic of
+//! its own: every function forwards to, or copies fields out of, the real items.
+
+use std::collections::HashMap;
+
+use crate::{
+    ValidationMode,
+    handler::HandlerEvent,
+    protocol::GossipsubCodec,
+    topic::TopicHash,
+    types::{ControlAction, SubscriptionAction},
+};
+
+/// The real wire codec of the gossipsub handler.
+pub fn codec(
+    max_transmit_size: usize,
+    validation_mode: ValidationMode,
+    max_transmit_sizes: HashMap<TopicHash, usize>,
+    max_publish_messages: usize,
+    max_control_message_size: usize,
+) -> GossipsubCodec {
+    GossipsubCodec::new(
+        max_transmit_size,
+        validation_mode,
+        max_transmit_sizes,
+        max_publish_messages,
+        max_control_message_size,
+    )
+}
+
+/// Plain-data view of one decoded inbound RPC.
+#[derive(Debug, Clone, Default, PartialEq, Eq)]
+pub struct DecodedRpc {
+    /// (source, data, sequence number, topic, signature, key) of every message accepted as valid
+    pub messages: Vec<DecodedMessage>,
+    /// same for messages reported as invalid, with the debug text of the validation error
+    pub invalid_messages: Vec<(DecodedMessage, String)>,
+    /// (subscribe?, topic)
+    pub subscriptions: Vec<(bool, String)>,
+    /// debug text of every control action
+    pub control: Vec<String>,
+}
+
+#[derive(Debug, Clone, Default, PartialEq, Eq)]
+pub struct DecodedMessage {
+    pub source: Option<libp2p_identity::PeerId>,
+    pub data: Vec<u8>,
+    pub sequence_number: Option<u64>,
+    pub topic: String,
+    pub signature: Option<Vec<u8>>,
+    pub key: Option<Vec<u8>>,
+}
+
+fn view(m: &crate::types::RawMessage) -> DecodedMessage {
+    DecodedMessage {
+        source: m.source,
+        data: m.data.clone(),
+        sequence_number: m.sequence_number,
+        topic: m.topic.as_str().to_owned(),
+        signature: m.signature.clone(),
+        key: m.key.clone(),
+    }
+}
+
+/// Copy the contents of a decoded handler event (None for events that carry no RPC).
+pub fn view_handler_event(ev: &HandlerEvent) -> Option<DecodedRpc> {
+    match ev {
+        HandlerEvent::Message {
+            rpc,
+            invalid_messages,
+        } => Some(DecodedRpc {
+            messages: rpc.messages.iter().map(view).collect(),
+            invalid_messages: invalid_messages
+                .iter()
+                .map(|(m, e)| (view(m), format!("{e:?}")))
+                .collect(),
+            subscriptions: rpc
+                .subscriptions
+                .iter()
+                .map(|s| {
+                    (
+                        matches!(s.action, SubscriptionAction::Subscribe),
+                        s.topic_hash.as_str().to_owned(),
+                    )
+                })
+                .collect(),
+            control: rpc
+                .control_msgs
+                .iter()
+                .map(|c: &ControlAction| format!("{c:?}"))
+                .collect(),
+        }),
+        _ => None,
+    }
+}
